@@ -16,10 +16,11 @@
 
    DATA MODEL (ASSUMED, established by revision_observations() and Cluster::update(), see unit.json trusted_base):
      all observation lists concatenated in cluster order are the ghost sequence  flat[0 .. nall);
-     cluster c owns the slice  flat[cl[c].first .. cl[c].last),  slices are adjacent and cover the sequence;
+     cluster c owns the slice  flat[clb[c] .. clb[c+1])  (clb = ghost array of ncl+1 begin offsets, clb[0] == 0, clb[ncl] == nall);
+     a std::list<Cluster*>::const_iterator is lowered to a pointer into clb (the cluster IS its slice);
      Observation* is an opaque handle; active() and stdDev() are uninterpreted functions ACT(h), SD(h) of the handle;
      apre[j] = number of active observations among flat[0..j)  (ghost prefix count);   apre[nall] == pocmer_;
-     cl[c].act_obs == apre[cl[c].last] - apre[cl[c].first]                             (Cluster::update);
+     Cluster::activeObs() of cluster c == apre[clb[c+1]] - apre[clb[c]]                (Cluster::update);
      ACT(flat[j]) ==> revised_obs_[apre[j]] == flat[j]                                  (revision_observations);
      revised_obs_ has exactly pocmer_ entries.
    Universally quantified facts are used quantifier-free: GV_INST(index in range, FACT(index)) at the point of use. */
@@ -31,8 +32,8 @@ typedef int ObsRef;                           /* opaque handle of an Observation
 
 struct Vec { Float *rep; Index sz; };         /* MemRep: rep, sz  (Vec = VecBase = MatVecBase = MemRep, no further data) */
 struct AdjBase { int gv_solver_kind; };
-struct Cluster { int first, last; int act_obs; };   /* observation_list = flat[first..last); act_obs (cached by update()) */
-struct ObsData { struct Cluster *cl; int ncl; };    /* clusters (std::list<Cluster*>) in list order */
+typedef int ClusterSlice;                           /* a cluster seen through an iterator p: observation_list = flat[p[0] .. p[1]) */
+struct ObsData { int ncl; int *gv_clb; };           /* clusters (std::list<Cluster*>) in list order: ncl + 1 begin offsets */
 
 struct LocalNetwork {
   struct AdjBase *least_squares;
@@ -52,7 +53,6 @@ struct LocalNetwork {
 int gv_exc;
 #define MAXOBS 10000000
 #define MAXCL  1000000
-#define CSZ ((long)sizeof(struct Cluster))
 #define ISZ ((long)sizeof(int))
 #define FSZ ((long)sizeof(Float))
 #define SAME_D(a, b) ((a) == (b) || ((a) != (a) && (b) != (b)))
@@ -104,7 +104,7 @@ static double gv_fsub(double a, double b)
   return r;
 }
 
-int gv_stddev_calls, gv_qbb_calls, gv_sqrt_calls, gv_m0_calls;
+int gv_stddev_calls, gv_qbb_calls, gv_m0_calls;
 double gv_m0;                  /* ghost: the value m_0() returns for the current adjustment */
 
 /* Observation::active(): pure */
@@ -133,7 +133,6 @@ static double gvs_q_bb(struct LocalNetwork *self, struct AdjBase *ls, int i, int
 static double gv_sqrt_rec(double x)
 {
   __CPROVER_assert(x >= 0, "sqrt argument is non-negative (and not NaN)");
-  gv_sqrt_calls++;
   __CPROVER_assume(SQRT(x) >= 0 && (x > 0 ? SQRT(x) > 0 : SQRT(x) == 0) && (!(x < 1.0 / 0.0) || SQRT(x) <= 1e155));
   return SQRT(x);
 }
@@ -149,11 +148,12 @@ static double gvs_m_0(struct LocalNetwork *self)
 }
 
 /* std::list iteration as a walk over the ghost sequences (begin/end of the sequence model) */
-static const struct Cluster *gv_clusters_begin(const struct LocalNetwork *self) { return self->OD.cl; }
-static const struct Cluster *gv_clusters_end(const struct LocalNetwork *self) { return self->OD.cl + self->OD.ncl; }
-static const ObsRef *gv_obslist_begin(const struct LocalNetwork *self, const struct Cluster *c) { return self->gv_flat + c->first; }
-static const ObsRef *gv_obslist_end(const struct LocalNetwork *self, const struct Cluster *c) { return self->gv_flat + c->last; }
-static int Cluster_activeObs(const struct Cluster *c) { return c->act_obs; }     /* one-line getter `return act_obs;` */
+static const ClusterSlice *gv_clusters_begin(const struct LocalNetwork *self) { return self->OD.gv_clb; }
+static const ClusterSlice *gv_clusters_end(const struct LocalNetwork *self) { return self->OD.gv_clb + self->OD.ncl; }
+static const ObsRef *gv_obslist_begin(const struct LocalNetwork *self, const ClusterSlice *c) { return self->gv_flat + c[0]; }
+static const ObsRef *gv_obslist_end(const struct LocalNetwork *self, const ClusterSlice *c) { return self->gv_flat + c[1]; }
+/* Cluster::activeObs(): ASSUMED contract (Cluster::update) -- the number of active observations of the cluster's list */
+static int Cluster_activeObs(const struct LocalNetwork *self, const ClusterSlice *c) { return self->gv_apre[c[1]] - self->gv_apre[c[0]]; }
 
 /* ---- well-formedness ---------------------------------------------------------------------------------------- */
 #define VEC_WF(v) ((v).sz >= 0 && (v).sz <= MAXOBS && __CPROVER_DYNAMIC_OBJECT((v).rep) && OFF((v).rep) == 0 && \
@@ -163,11 +163,11 @@ static int Cluster_activeObs(const struct Cluster *c) { return c->act_obs; }    
    MODERATE((N)->m_0_apr_) && VEC_WF((N)->sigma_L) && VEC_WF((N)->vahkopr) &&                                         \
    __CPROVER_r_ok((N)->revised_obs_, (size_t)(N)->pocmer_ * sizeof(ObsRef)) &&                                        \
    (N)->gv_nall >= 0 && (N)->gv_nall <= MAXOBS && (N)->OD.ncl >= 0 && (N)->OD.ncl <= MAXCL &&                         \
-   __CPROVER_r_ok((N)->OD.cl, (size_t)(N)->OD.ncl * sizeof(struct Cluster)) &&                                        \
+   __CPROVER_r_ok((N)->OD.gv_clb, ((size_t)(N)->OD.ncl + 1) * sizeof(int)) &&                                         \
    __CPROVER_r_ok((N)->gv_flat, (size_t)(N)->gv_nall * sizeof(ObsRef)) &&                                             \
    __CPROVER_r_ok((N)->gv_apre, ((size_t)(N)->gv_nall + 1) * sizeof(int)) &&                                          \
    (N)->gv_apre[0] == 0 && (N)->gv_apre[(N)->gv_nall] == (N)->pocmer_ &&                                              \
-   ((N)->OD.ncl == 0 ? (N)->gv_nall == 0 : ((N)->OD.cl[0].first == 0 && (N)->OD.cl[(N)->OD.ncl - 1].last == (N)->gv_nall)))
+   (N)->OD.gv_clb[0] == 0 && (N)->OD.gv_clb[(N)->OD.ncl] == (N)->gv_nall)
 /* forall j in [0, nall): */
 #define FLAT_WF(N, j)                                                                                                 \
   ((N)->gv_apre[j] >= 0 && (N)->gv_apre[(j) + 1] == (N)->gv_apre[j] + (ACT((N)->gv_flat[j]) ? 1 : 0) &&              \
@@ -175,10 +175,7 @@ static int Cluster_activeObs(const struct Cluster *c) { return c->act_obs; }    
 /* forall 0 <= a <= b <= nall: the prefix count is monotone (consequence of its definition) */
 #define APRE_MONO(N, a, b) ((N)->gv_apre[a] <= (N)->gv_apre[b])
 /* forall c in [0, ncl): */
-#define CL_WF(N, c)                                                                                                   \
-  (0 <= (N)->OD.cl[c].first && (N)->OD.cl[c].first <= (N)->OD.cl[c].last && (N)->OD.cl[c].last <= (N)->gv_nall &&    \
-   (N)->OD.cl[c].act_obs == (N)->gv_apre[(N)->OD.cl[c].last] - (N)->gv_apre[(N)->OD.cl[c].first] &&                  \
-   ((c) + 1 < (N)->OD.ncl ? (N)->OD.cl[(c) + 1].first == (N)->OD.cl[c].last : (N)->OD.cl[c].last == (N)->gv_nall))
+#define CL_WF(N, c) (0 <= (N)->OD.gv_clb[c] && (N)->OD.gv_clb[c] <= (N)->OD.gv_clb[(c) + 1] && (N)->OD.gv_clb[(c) + 1] <= (N)->gv_nall)
 
 /* ---- ghost indices (forall-introduction) and the TERMS the property dictates ------------------------------------ */
 int    gv_k0;                  /* an observation index 1..pocmer_ (residual-cofactor block) */
@@ -244,21 +241,19 @@ __CPROVER_decreases((long)self->pocmer_ + 1 - i)
 
 /* ---- standard deviations of the adjusted observations ------------------------------------------------------------ */
 //@ contract LocalNetwork_vyrovnani_sigmaL_block
-__CPROVER_requires(NET_SHAPE(self) && self->tst_vyrovnani_ && gv_exc == 0 && gv_m0_calls == 0 && gv_qbb_calls == 0 && gv_stddev_calls == 0 && gv_sqrt_calls == 0)
+__CPROVER_requires(NET_SHAPE(self) && self->tst_vyrovnani_ && gv_exc == 0 && gv_m0_calls == 0 && gv_qbb_calls == 0 && gv_stddev_calls == 0)
 __CPROVER_requires((0 <= gv_j0 && gv_j0 < self->gv_nall) ==> FLAT_WF(self, gv_j0))
-__CPROVER_assigns(self->sigma_L.rep, self->sigma_L.sz, __CPROVER_object_whole(self->sigma_L.rep), gv_stddev_calls, gv_qbb_calls, gv_sqrt_calls, gv_m0_calls)
+__CPROVER_assigns(self->sigma_L.rep, self->sigma_L.sz, __CPROVER_object_whole(self->sigma_L.rep), gv_stddev_calls, gv_qbb_calls, gv_m0_calls)
 __CPROVER_frees(self->sigma_L.rep)
 __CPROVER_ensures(self->sigma_L.sz == self->pocmer_ && (self->pocmer_ > 0 ==> VEC_WF(self->sigma_L)))
 /* the ghost observation flat[j0], if active, is observation number n0 = apre[j0]+1 (= revised_obs_[n0-1]); element n0 of sigma_L is
    (m0/m0_apr) * sqrt(q_bb(n0,n0)) * stdDev(that observation), in one of the three association orders of the product */
 __CPROVER_ensures((0 <= gv_j0 && gv_j0 < self->gv_nall && ACT(self->gv_flat[gv_j0])) ==> SIG_IS_EXPECTED(self, gv_j0, self->sigma_L.rep[self->gv_apre[gv_j0]]))
-/* one cofactor, one square root and one standard deviation per ACTIVE observation, the reference deviation asked once */
-__CPROVER_ensures(gv_qbb_calls == __CPROVER_old(gv_qbb_calls) + self->pocmer_ && gv_sqrt_calls == __CPROVER_old(gv_sqrt_calls) + self->pocmer_ &&
-                  gv_stddev_calls == __CPROVER_old(gv_stddev_calls) + self->pocmer_ && gv_m0_calls == 1)
+/* one cofactor per ACTIVE observation (every slot 1..pocmer_ is visited exactly once), the reference deviation asked once */
+__CPROVER_ensures(gv_qbb_calls == self->pocmer_ && gv_m0_calls == 1)
 __CPROVER_ensures(self->pocmer_ == __CPROVER_old(self->pocmer_) && self->tst_vyrovnani_)
 //@ entry LocalNetwork_vyrovnani_sigmaL_block
 GV_CANARY("LocalNetwork_vyrovnani_sigmaL_block entry");
-const int gv_qbb0 = gv_qbb_calls, gv_sd0 = gv_stddev_calls, gv_sq0 = gv_sqrt_calls;
 /* ghost: is the ghost observation flat[j0] active, its slot n0-1 = apre[j0], and the three admissible values (invariants must be call-free) */
 _Bool gv_j0_act = 0; int gv_slot0 = 0; double gv_e0 = 0, gv_e1 = 0, gv_e2 = 0;
 if (0 <= gv_j0 && gv_j0 < self->gv_nall && ACT(self->gv_flat[gv_j0])) {
@@ -270,34 +265,33 @@ if (0 <= gv_j0 && gv_j0 < self->gv_nall && ACT(self->gv_flat[gv_j0])) {
 }
 #define SIG_OK(x) (SAME_D((x), gv_e0) || SAME_D((x), gv_e1) || SAME_D((x), gv_e2))
 int gv_c = 0;          /* ghost: index of the cluster `cit` points to */
-int gv_pos = 0;        /* ghost: flat position where that cluster begins */
+int gv_pos = 0;        /* ghost: flat position where that cluster begins (== clb[gv_c]) */
+int gv_end = 0;        /* ghost: flat position where it ends (== clb[gv_c+1]) */
 int gv_j = 0;          /* ghost: flat position of the observation `i` points to */
 //@ loop LocalNetwork_vyrovnani_sigmaL_block 1
-__CPROVER_assigns(cit, ind_0, gv_c, gv_pos, gv_j, gv_stddev_calls, gv_qbb_calls, gv_sqrt_calls; self->pocmer_ > 0: __CPROVER_object_whole(self->sigma_L.rep))
-__CPROVER_loop_invariant(0 <= gv_c && gv_c <= self->OD.ncl && SAME(cit, self->OD.cl) && OFF(cit) == CSZ * gv_c &&
-                         0 <= gv_pos && gv_pos <= self->gv_nall && ind_0 == self->gv_apre[gv_pos] &&
-                         (gv_c < self->OD.ncl ? self->OD.cl[gv_c].first == gv_pos : gv_pos == self->gv_nall) &&
-                         gv_qbb_calls == gv_qbb0 + ind_0 && gv_stddev_calls == gv_sd0 + ind_0 && gv_sqrt_calls == gv_sq0 + ind_0 &&
+__CPROVER_assigns(cit, ind_0, gv_c, gv_pos, gv_end, gv_j, gv_qbb_calls, gv_stddev_calls; self->pocmer_ > 0: __CPROVER_object_whole(self->sigma_L.rep))
+__CPROVER_loop_invariant(0 <= gv_c && gv_c <= self->OD.ncl && SAME(cit, self->OD.gv_clb) && OFF(cit) == ISZ * gv_c &&
+                         0 <= gv_pos && gv_pos <= self->gv_nall && gv_pos == self->OD.gv_clb[gv_c] && ind_0 == self->gv_apre[gv_pos] &&
+                         gv_qbb_calls == ind_0 &&
                          ((gv_j0_act && gv_j0 < gv_pos) ==> SIG_OK(self->sigma_L.rep[gv_slot0])))
 __CPROVER_decreases((long)self->OD.ncl - gv_c)
 //@ head LocalNetwork_vyrovnani_sigmaL_block 1
-GV_ANCHOR(cit, self->OD.cl + gv_c);
+GV_ANCHOR(cit, self->OD.gv_clb + gv_c);
 GV_INST(0 <= gv_c && gv_c < self->OD.ncl, CL_WF(self, gv_c));
-if (self->OD.cl[gv_c].first <= gv_j0 && gv_j0 < self->OD.cl[gv_c].last)   /* a cluster without active observations contains no active observation */
-  GV_INST(0 <= self->OD.cl[gv_c].first && gv_j0 + 1 <= self->OD.cl[gv_c].last && self->OD.cl[gv_c].last <= self->gv_nall,
-          APRE_MONO(self, self->OD.cl[gv_c].first, gv_j0) && APRE_MONO(self, gv_j0 + 1, self->OD.cl[gv_c].last));
+gv_end = self->OD.gv_clb[gv_c + 1];
+if (gv_pos <= gv_j0 && gv_j0 < gv_end)   /* a cluster without active observations contains no active observation */
+  GV_INST(0 <= gv_pos && gv_j0 + 1 <= gv_end && gv_end <= self->gv_nall, APRE_MONO(self, gv_pos, gv_j0) && APRE_MONO(self, gv_j0 + 1, gv_end));
 //@ tail LocalNetwork_vyrovnani_sigmaL_block 1
-gv_pos = self->OD.cl[gv_c].last;
+gv_pos = gv_end;
 gv_c++;
 //@ pre LocalNetwork_vyrovnani_sigmaL_block 2
 gv_j = gv_pos;
 //@ loop LocalNetwork_vyrovnani_sigmaL_block 2
-__CPROVER_assigns(i, n, gv_j, gv_stddev_calls, gv_qbb_calls, gv_sqrt_calls; self->pocmer_ > 0: __CPROVER_object_whole(self->sigma_L.rep))
-__CPROVER_loop_invariant(gv_pos <= gv_j && gv_j <= self->OD.cl[gv_c].last && SAME(i, self->gv_flat) && OFF(i) == ISZ * gv_j &&
-                         n == self->gv_apre[gv_j] + 1 &&
-                         gv_qbb_calls == gv_qbb0 + (n - 1) && gv_stddev_calls == gv_sd0 + (n - 1) && gv_sqrt_calls == gv_sq0 + (n - 1) &&
+__CPROVER_assigns(i, n, gv_j, gv_qbb_calls, gv_stddev_calls; self->pocmer_ > 0: __CPROVER_object_whole(self->sigma_L.rep))
+__CPROVER_loop_invariant(gv_pos <= gv_j && gv_j <= gv_end && SAME(i, self->gv_flat) && OFF(i) == ISZ * gv_j &&
+                         n == self->gv_apre[gv_j] + 1 && gv_qbb_calls == n - 1 &&
                          ((gv_j0_act && gv_j0 < gv_j) ==> SIG_OK(self->sigma_L.rep[gv_slot0])))
-__CPROVER_decreases((long)self->OD.cl[gv_c].last - gv_j)
+__CPROVER_decreases((long)gv_end - gv_j)
 //@ head LocalNetwork_vyrovnani_sigmaL_block 2
 GV_ANCHOR(i, self->gv_flat + gv_j);
 GV_INST(0 <= gv_j && gv_j < self->gv_nall, FLAT_WF(self, gv_j));
@@ -322,12 +316,12 @@ static void mk_net(struct LocalNetwork *N, struct AdjBase *ls)
   mk_vec(&N->vahkopr);
   __CPROVER_assume(N->pocmer_ >= 0 && N->pocmer_ <= MAXOBS && N->gv_nall >= 0 && N->gv_nall <= MAXOBS && N->OD.ncl >= 0 && N->OD.ncl <= MAXCL);
   N->revised_obs_ = malloc((size_t)N->pocmer_ * sizeof(ObsRef));
-  N->OD.cl = malloc((size_t)N->OD.ncl * sizeof(struct Cluster));
+  N->OD.gv_clb = malloc(((size_t)N->OD.ncl + 1) * sizeof(int));
   N->gv_flat = malloc((size_t)N->gv_nall * sizeof(ObsRef));
   N->gv_apre = malloc(((size_t)N->gv_nall + 1) * sizeof(int));
-  __CPROVER_assume(N->revised_obs_ && N->OD.cl && N->gv_flat && N->gv_apre);
+  __CPROVER_assume(N->revised_obs_ && N->OD.gv_clb && N->gv_flat && N->gv_apre);
   gv_exc = 0;
-  gv_qbb_calls = gv_stddev_calls = gv_sqrt_calls = gv_m0_calls = 0;
+  gv_qbb_calls = gv_stddev_calls = gv_m0_calls = 0;
   __CPROVER_assume(NET_SHAPE(N));
 }
 void h_weight_obs(void)
